@@ -17,6 +17,7 @@ fn adapter(name: &str, variant: &str) -> Option<Box<dyn Adapter>> {
         "reconnect" => Box::new(adapters::reconnect::ReconnectAd::new()),
         "timelimiter" => Box::new(adapters::timelimiter::TimeLimiterAd::new()),
         "hedge" => Box::new(adapters::hedge::HedgeAd::new()),
+        "cache" => Box::new(adapters::cache::CacheAd::new()),
         "circuitbreaker" => Box::new(adapters::circuitbreaker::CbAd::new(variant)),
         _ => return None,
     })
